@@ -408,9 +408,11 @@ def rule_R14(text, log):
     tail = text[last + 1:c]
     if not tail.strip():
         return text
-    # the tail must be one expression: no depth-1 block followed by further tokens
+    # a block statement (if / match / while ... { } not followed by `.`, `else` or `?`) before the tail expression
+    # ends a statement just like ';' does: the tail starts after the last such block
     tm = mask(tail)
     j = 0
+    cut = 0
     while j < len(tm):
         if tm[j] in '([':
             j = match_close(tm, j)
@@ -418,8 +420,12 @@ def rule_R14(text, log):
             j = match_close(tm, j)
             rest = tm[j + 1:].strip()
             if rest and not rest.startswith('.') and not rest.startswith('else') and not rest.startswith('?'):
-                raise LostAnchor('R14: tail of body is not a single expression')
+                if not re.match(r'\s*(if|match|while|loop|for)\b', tm[cut:]):
+                    raise LostAnchor('R14: tail of body is not a single expression')
+                cut = j + 1
         j += 1
+    last += cut
+    tail = text[last + 1:c]
     new = ' let ret__ = ' + tail.strip() + '; ret__\n'
     log.append(dict(rule='R14', before=tail.strip()[:120], after='let ret__ = <tail>; ret__'))
     return text[:last + 1] + new + text[c:]
@@ -740,6 +746,31 @@ def rule_R9(text, log):
         text = text[:c['recv_start']] + after + text[end:]
 
 
+def rule_R9z(text, log):
+    """std::iter::zip(A, B).map(|(a, b)| E).collect()   (A: a slice borrowed, B: a Vec consumed)  ==>
+       { let mut out__ = Vec::new(); let mut zb__ = vec_into_iter(B); let mut iz__: usize = 0; let mut more__ = true;
+         while more__ && iz__ < A.len() { match zb__.next() { Some(b) => { let a = &A[iz__]; out__.push(E); iz__ += 1; } None => { more__ = false; } } } out__ }
+    (std: Zip::next takes from A first, then from B, and stops at the first None; B's items are moved out in order)"""
+    while True:
+        m = mask(text)
+        hit = None
+        for c in find_closure_calls(text, 'map'):
+            mm = re.match(r'\s*\.\s*collect\s*\(\s*\)', m[c['close'] + 1:])
+            recv = text[c['recv_start']:c['dot']].strip()
+            mz = re.fullmatch(r'std\s*::\s*iter\s*::\s*zip\s*\(\s*(' + IDENT + r')\s*,\s*([\w.]+)\s*\)', recv)
+            mp = re.fullmatch(r'\(\s*(' + IDENT + r')\s*,\s*(' + IDENT + r')\s*\)', c['params'])
+            if mm and mz and mp:
+                hit = (c, c['close'] + 1 + mm.end(), mz, mp)
+                break
+        if not hit:
+            return text
+        c, end, mz, mp = hit
+        after = ('{ let mut out__ = Vec::new(); let mut zb__ = vec_into_iter(%s); let mut iz__: usize = 0; let mut more__ = true; while more__ && iz__ < %s.len() { match zb__.next() { Some(%s) => { let %s = &%s[iz__]; out__.push(%s); iz__ += 1; } None => { more__ = false; } } } out__ }'
+                 % (mz.group(2), mz.group(1), mp.group(2), mp.group(1), mz.group(1), c['body']))
+        log.append(dict(rule='R9z', before=text[c['recv_start']:end][:200], after=after[:300]))
+        text = text[:c['recv_start']] + after + text[end:]
+
+
 IF_MORE_BODY = 'Ok(match r.is_empty() { true => None, _ => Some(f(r)?), })'
 
 
@@ -782,7 +813,7 @@ def rule_R4g(text, log):
         text = text[:s0] + after + text[bc + 1:]
 
 
-RULES = {'R4g': rule_R4g, 'R8i': rule_R8i, 'R9': rule_R9, 'R3c': rule_R3c, 'R19p': rule_R19p, 'R4e': rule_R4e, 'R4f': rule_R4f, 'R19': rule_R19, 'R9b': rule_R9b, 'R18': rule_R18, 'R4b': rule_R4b, 'R4c': rule_R4c, 'R4d': rule_R4d, 'R9c': rule_R9c, 'R16': rule_R16, 'R5': rule_R5, 'R15': rule_R15, 'R6bp': rule_R6bp,
+RULES = {'R9z': rule_R9z, 'R4g': rule_R4g, 'R8i': rule_R8i, 'R9': rule_R9, 'R3c': rule_R3c, 'R19p': rule_R19p, 'R4e': rule_R4e, 'R4f': rule_R4f, 'R19': rule_R19, 'R9b': rule_R9b, 'R18': rule_R18, 'R4b': rule_R4b, 'R4c': rule_R4c, 'R4d': rule_R4d, 'R9c': rule_R9c, 'R16': rule_R16, 'R5': rule_R5, 'R15': rule_R15, 'R6bp': rule_R6bp,
     'R1': rule_R1, 'R2': rule_R2, 'R3': rule_R3, 'R3b': rule_R3b, 'R4': rule_R4,
     'R6': rule_R6, 'R6b': rule_R6b, 'R6c': rule_R6c,
 }
